@@ -15,6 +15,7 @@ From SU Require Import F32 F32Lemmas.
 From SU.Model Require Import PhaseAcc Adsr Lfo Quantizer Midi Glide Ribbon.
 From SU.Spec Require Import AdsrSpec QuantSpec MidiSpec RibbonSpec RunSpec.
 From SU.Proofs Require Import NoPanicProofs.
+From SU.Proofs Require Import LivenessProofs.
 Open Scope R_scope.
 
 (** envelope: sample rate in [100 Hz, 192 kHz], times and sustain levels of ANY f32 value *)
@@ -71,6 +72,58 @@ Theorem C17_reaches_rest : forall fs ops, fs_ok fs ->
     a_state s' = AtRest /\ R32 (a_value s') = 0.
 Proof. exact envelope_reaches_rest. Qed.
 
+(** liveness under arbitrary call orders: ticks interleaved with any parameter changes (any f32 arguments); every tick of a timed phase uses up at least one of a bounded number of remaining ticks, whatever the times are changed to *)
+Open Scope Z_scope.
+Theorem C17_liveness_general : forall s mid, InvC s -> fs_ok (pa_fs (a_pa s)) ->
+  Forall no_gate mid -> ticks_left s <= count_ticks mid ->
+  a_state (fold_left adsr_step mid s) = final_phase (a_state s).
+Proof. exact liveness_general. Qed.
+Close Scope Z_scope.
+
+(** a timed phase always ends within 2^22 ticks *)
+Open Scope Z_scope.
+Theorem C17_timed_phase_changes : forall s mid, InvC s -> fs_ok (pa_fs (a_pa s)) ->
+  Forall no_gate mid -> 4194304 <= count_ticks mid -> timed (a_state s) = true ->
+  a_state (fold_left adsr_step mid s) <> a_state s.
+Proof. exact timed_phase_changes. Qed.
+Close Scope Z_scope.
+
+(** gate-on, then any gate-free calls containing 8388610 ticks: sustain, at the sustain level (provided the sustain level was not changed after the last tick) *)
+Open Scope Z_scope.
+Theorem C17_reaches_sustain_interleaved : forall fs ops mid, fs_ok fs ->
+  Forall no_gate mid -> 8388610 <= count_ticks mid -> sustain_settled mid ->
+  let s' := fold_left adsr_step mid (adsr_step (adsr_run fs ops) AGateOn) in
+  a_state s' = Sustain /\ (R32 (a_value s') = R32 (a_sustain s'))%R.
+Proof. exact reaches_sustain_interleaved. Qed.
+Close Scope Z_scope.
+
+(** the phase part holds unconditionally *)
+Open Scope Z_scope.
+Theorem C17_reaches_sustain_interleaved_state : forall fs ops mid, fs_ok fs ->
+  Forall no_gate mid -> 8388610 <= count_ticks mid ->
+  a_state (fold_left adsr_step mid (adsr_step (adsr_run fs ops) AGateOn)) = Sustain.
+Proof. exact reaches_sustain_interleaved_state. Qed.
+Close Scope Z_scope.
+
+(** the proviso is needed: the output is recomputed by ticks only, a sustain change after the last tick is not yet audible *)
+Open Scope Z_scope.
+Theorem C17_reaches_sustain_value_false :
+  exists fs ops mid, fs_ok fs /\ Forall no_gate mid /\ 8388610 <= count_ticks mid /\
+    let s' := fold_left adsr_step mid (adsr_step (adsr_run fs ops) AGateOn) in
+    a_state s' = Sustain /\ R32 (a_value s') = 1%R /\ R32 (a_sustain s') = 0%R /\
+    R32 (a_value s') <> R32 (a_sustain s').
+Proof. exact reaches_sustain_interleaved_value_false. Qed.
+Close Scope Z_scope.
+
+(** gate-off, then any gate-free calls containing 4194305 ticks: at rest at 0.0 *)
+Open Scope Z_scope.
+Theorem C17_reaches_rest_interleaved : forall fs ops mid, fs_ok fs ->
+  Forall no_gate mid -> 4194305 <= count_ticks mid ->
+  let s' := fold_left adsr_step mid (adsr_step (adsr_run fs ops) AGateOff) in
+  a_state s' = AtRest /\ (R32 (a_value s') = 0)%R.
+Proof. exact reaches_rest_interleaved. Qed.
+Close Scope Z_scope.
+
 Print Assumptions C17_adsr.
 Print Assumptions C17_lfo.
 Print Assumptions C17_quantizer.
@@ -79,3 +132,9 @@ Print Assumptions C17_glide.
 Print Assumptions C17_ribbon.
 Print Assumptions C17_reaches_sustain.
 Print Assumptions C17_reaches_rest.
+Print Assumptions C17_liveness_general.
+Print Assumptions C17_timed_phase_changes.
+Print Assumptions C17_reaches_sustain_interleaved.
+Print Assumptions C17_reaches_sustain_interleaved_state.
+Print Assumptions C17_reaches_sustain_value_false.
+Print Assumptions C17_reaches_rest_interleaved.
